@@ -192,7 +192,9 @@ def run_real(cls_recs, rel, accesses, forms: int, keep_memo: bool = False) -> Li
     from django_components import Component
     w = world()
     w.counter += 1
-    modname = f"vf_c16_case_{w.counter}"
+    # every third run re-uses ONE module name, so distinct classes with the same module + qualname exist
+    # over time (a class factory / module reload): results must still be per class object
+    modname = "vf_c16_case_shared" if w.counter % 3 == 0 else f"vf_c16_case_{w.counter}"
     mod = types.ModuleType(modname)
     mod.__file__ = str(w.root / "sub" / "m.py")
     sys.modules[modname] = mod
